@@ -19,7 +19,7 @@ EXCL = {}
 # affect their oracle; a new finding added here reaches every engine at once.
 # KF-pad-wide advertises a larger shape than it produces: whatever is stacked on it (a contraction, a
 # concatenate) fails to unify chunks or produces blocks of other shapes than advertised
-RAISES = ("KF-layout-drift-over-shuffle", "KF-minmax-empty", "KF-setitem-int-with-negstep", "KF-layout-drift-over-window-reduction", "KF-pad-wide")  # graph build / compute raises, graph not closed, or wrong block shapes
+RAISES = ("KF-layout-drift-over-shuffle", "KF-minmax-empty", "KF-setitem-int-with-negstep", "KF-layout-drift-over-window-reduction", "KF-pad-wide", "KF-swv-over-higher-order-diff")  # graph build / compute raises, graph not closed, or wrong block shapes
 VALUES = ("KF-tensordot-int-dtype", "KF-argext-ties-axis-none")  # computes, but differs from NumPy
 ALL = RAISES + VALUES
 
@@ -91,6 +91,27 @@ def _frozen_layout_over_window_reduction(prog, vals):
         if s["op"] in ("broadcast_to", "reshape", "ravel", "sliding_window_view", "swv_reduce", "repeat", "pad") and any(depends(a) for a in s["args"]):
             return True
     return False
+
+
+@excl("KF-swv-over-higher-order-diff")
+def _swv_over_diff(prog, vals):
+    """sliding_window_view (which re-chunks its input when a chunk is shorter than the window) downstream of
+    diff(n >= 2): the internal rechunk is pushed through the difference's elemwise, whose operand layout then
+    drifts under slice pushdown."""
+    L = len(prog["leaves"])
+    src = {L + k for k, s in enumerate(prog["stmts"]) if s["op"] == "diff" and int(s.get("n", 1)) >= 2}
+    if not src:
+        return False
+
+    def depends(v, seen):
+        if v in src:
+            return True
+        if v < L or v in seen:
+            return False
+        seen.add(v)
+        return any(depends(a, seen) for a in prog["stmts"][v - L]["args"])
+
+    return any(s["op"] in ("sliding_window_view", "swv_reduce") and any(depends(a, set()) for a in s["args"]) for s in prog["stmts"])
 
 
 @excl("KF-setitem-int-with-negstep")
